@@ -373,6 +373,7 @@ class Fn:
             elif nm in s.ptr_in or nm in s.ptr_out:
                 if nm in s.ptr_in: ins.append(nm + '_v'); s.sig_ins.append((nm, 'ptr', None))
                 s.param_spec.append(None)
+            elif nm in s.d.get('flattened', ()): s.param_spec.append(None)      # only used through its struct members, which are parameters of their own
             elif '*' in p['type']['qualType']: raise Unsupported('pointer parameter %s neither read at fixed positions nor written' % nm)
             else: ins.append(nm); s.param_spec.append(None); s.sig_ins.append((nm, 'scalar', None))
         outs = []; pnames = set(p['name'] for p in params)
@@ -433,6 +434,7 @@ def flatten_nested(d):
     d['inner'] = walk(d['inner'])
     idx = max(i for i, c in enumerate(d['inner']) if c['kind'] == 'ParmVarDecl') + 1
     d['inner'][idx:idx] = [{'kind': 'ParmVarDecl', 'name': nm, 'type': {'qualType': t}} for nm, t in sorted(pseudo.items())]
+    d['flattened'] = sorted(set(nm.rsplit('_', 1)[0] for nm in pseudo))
     return d
 
 _AST_CACHE = {}
